@@ -99,10 +99,20 @@ def race_work(P, name):
     found = []
 
     def run(ctx):
+        # pass 1: which arrays does an iteration write?  Arrays nobody writes load equal values at equal indices in
+        # both iterations (uninterpreted LD_<array>(index)); written ones keep independent fresh values.
+        it0 = RaceInterp(cap, "P", list(sp["pre"](S)), sp["lc"](S))
+        try:
+            it0.run(sp["sym"](S))
+        except Exception as e:  # noqa: BLE001
+            if type(e).__name__ != "KernelRaise":
+                raise
+        written = {a[0] for a in it0.acc if a[2] == "W"}
+        stable = {a[0] for a in it0.acc} - written
         cons = list(sp["pre"](S))
-        logs = []
+        logs, loads = [], []
         for tag in ("A", "B"):
-            it = RaceInterp(cap, tag, cons, sp["lc"](S))
+            it = RaceInterp(cap, tag, cons, sp["lc"](S), stable=stable)
             args = sp["sym"](S)
             for a in args:   # machine-width range of every scalar argument
                 if isinstance(a, Sym) and isinstance(a.ty, types.Integer):
@@ -114,10 +124,11 @@ def race_work(P, name):
                 if type(e).__name__ != "KernelRaise":
                     raise
             logs.append(it.acc)
-        return cons, logs
+            loads.extend(getattr(it, "loads", []))
+        return cons, logs, loads
 
     def on_path(ctx, out):
-        cons, logs = out
+        cons, logs, loads = out
         for c in cons:
             ctx.assume(c)
         P.reached += 1
@@ -139,7 +150,13 @@ def race_work(P, name):
             V = {n: m.eval(S[n], model_completion=True).as_long() for n in S}
             pa = [m.eval(t, model_completion=True).as_long() for t in {a[4] for a in logs[0]}]
             pb = [m.eval(t, model_completion=True).as_long() for t in {a[4] for a in logs[1]}]
-            params = dict(kernel=name, sizes=V, it_a=pa[0] if pa else 0, it_b=pb[0] if pb else 1, array=arr)
+            ld = {}
+            for an, terms, vt in loads:
+                if len(terms) == 1:
+                    iv, vv = m.eval(terms[0], model_completion=True), m.eval(vt, model_completion=True)
+                    if z3.is_int_value(iv) and z3.is_int_value(vv) and 0 <= iv.as_long() < 4096:
+                        ld.setdefault(an, {})[str(iv.as_long())] = vv.as_long()
+            params = dict(kernel=name, sizes=V, it_a=pa[0] if pa else 0, it_b=pb[0] if pb else 1, array=arr, loads=ld)
             src = ("import sys, json\nfrom symx.concrete import c19\n"
                    f"sys.exit(c19.main(json.loads({json.dumps(json.dumps(params))})))\n")
             found.append(params)
